@@ -61,7 +61,7 @@ Begin(e) ==
    IN [pid |-> e.pid, dead |-> ~e.raw.ok, pm |-> FALSE, pm12 |-> FALSE, cfg |-> e.cfg, oem |-> oem, m |-> InitModel(D, oem), raw |-> e.raw, D |-> D,
        rv |-> Get(e, "rv", [ok |-> FALSE]), sv |-> <<>>, svok |-> FALSE,
        mounted |-> FALSE, mountSt |-> e.raw.st, changed |-> FALSE, clk |-> e.clk, ro |-> TRUE,
-       atime |-> Get(e.cfg, "atime", FALSE), U |-> e.raw.g.cell, fiUsable |-> FALSE, fiW |-> FALSE, fiTrust |-> TRUE, mountRaw |-> e.raw, mountFree |-> FreeCount(D.F),
+       atime |-> Get(e.cfg, "atime", FALSE), U |-> e.raw.g.cell, fiUsable |-> FALSE, fiW |-> FALSE, fiTrust |-> TRUE, fiBase |-> FALSE, mountRaw |-> e.raw, mountFree |-> FreeCount(D.F),
        dur |-> {}, wl |-> 0, crv |-> [ok |-> FALSE]]
 
 \* C08: a volume made by someone else is read faithfully: what the library lists (fresh mount) and what
@@ -377,8 +377,14 @@ Step(s, e) ==
                         ELSE IF e.op \in {"unmount", "dropfs"} THEN Tag("C12.unmount_restores", e.r.k = "ok" => post.st = mountSt)
                         ELSE IF e.op = "abandon" THEN {}
                         ELSE Tag("C12.bracket", changed => DirtyBit(post.st)) \cup Tag("C12.never_cleared", BitsKept(mountSt, post.st))
-             IN [s |-> [s EXCEPT !.pm = pmS, !.raw = post, !.D = Dp, !.changed = changed, !.mountSt = mountSt],
-                 v |-> v3 \cup v12, dev |-> {}, note |-> {"PM"}]
+                 \* C05 needs no model either: a volume that this program's earlier session found trustworthy (count exact, or not usable)
+                 \* must not be left marked clean with a usable but wrong free count, whatever failed in between: the next mount would
+                 \* report that count (a count that was already wrong when the program began is the previous writer's business)
+                 usable == IsFat32(s.raw) /\ s.raw.fi.ok /\ s.raw.fi.free >= 0 /\ s.raw.fi.free <= s.raw.g.n /\ ~DirtyBit(s.raw.st)
+                 v05 == IF e.op = "mount" /\ Get(s, "fiBase", FALSE) /\ usable THEN Tag("C05.clean_stale", s.raw.fi.free = FreeCount(s.D.F)) ELSE {}
+                 fiBase == IF e.op = "mount" THEN (~usable \/ s.raw.fi.free = FreeCount(s.D.F)) ELSE Get(s, "fiBase", FALSE)
+             IN [s |-> [s EXCEPT !.pm = pmS, !.raw = post, !.D = Dp, !.changed = changed, !.mountSt = mountSt, !.fiBase = fiBase],
+                 v |-> v3 \cup v12 \cup v05, dev |-> {}, note |-> {"PM"}]
    ELSE IF e.op = "end" \/ (s.dead /\ (e.op # "crash" \/ ~Has(s, "dur"))) THEN [s |-> s, v |-> {}, dev |-> {}, note |-> {}]
    ELSE IF e.op = "crash" THEN
         \* C14: the image a power cut leaves after the first e.p entries of the device write log
@@ -391,7 +397,7 @@ Step(s, e) ==
    ELSE IF e.op = "poke" THEN
         \* the unmounted image was modified by someone else (harness): adopt the new projection, judge nothing
         LET post == IF Has(e, "raw") THEN e.raw ELSE s.raw IN
-        [s |-> [s EXCEPT !.raw = post, !.D = IF Has(e, "raw") THEN Derive(post, s.oem) ELSE s.D, !.rv = Get(e, "rv", s.rv)],
+        [s |-> [s EXCEPT !.raw = post, !.D = IF Has(e, "raw") THEN Derive(post, s.oem) ELSE s.D, !.rv = Get(e, "rv", s.rv), !.fiBase = FALSE],
          v |-> {}, dev |-> {}, note |-> {}]
    ELSE IF e.r.k = "skip" THEN
         \* the harness had no such handle (an earlier create/open failed): consistent iff the model has none either
@@ -488,6 +494,8 @@ Step(s, e) ==
                   THEN ~(IsFat32(s.raw) /\ s.raw.fi.ok /\ s.raw.fi.free >= 0 /\ s.raw.fi.free <= s.raw.g.n /\ ~DirtyBit(s.raw.st))
                        \/ s.raw.fi.free = FreeCount(s.D.F)
                   ELSE s.fiTrust
+       c05m == IF e.op = "mount" /\ s.fiBase /\ IsFat32(s.raw) /\ s.raw.fi.ok /\ s.raw.fi.free >= 0 /\ s.raw.fi.free <= s.raw.g.n /\ ~DirtyBit(s.raw.st)
+               THEN Tag("C05.clean_stale", s.raw.fi.free = FreeCount(s.D.F)) ELSE {}
        \* ---- C05 FSInfo at unmount
        \* (a volume left marked dirty tells every mounter to ignore the stored count)
        \* (a session that neither changed the number of free clusters nor wrote the information sector leaves whatever a previous
@@ -578,14 +586,17 @@ Step(s, e) ==
                 s.raw.dirs[a].ch[j] = seg.c =>
                    \A i \in ((j - 1) * per + seg.o \div 32 + 1)..((j - 1) * per + (seg.o + seg.l - 1) \div 32 + 1) : slotOk(a, i)
           ELSE TRUE
+       \* clusters that (also) lie on the chain of an object the call may NOT change: on a consistent image nobody else claims them, and if
+       \* a stale entry of an allowed object claims them too, a write through that entry still lands in a different file
+       foreignPre == TLCEval(UNION {ToSet(s.D.rows[i].w.ch) : i \in {x \in 1..Len(s.D.rows) : s.D.rows[x].p \notin allowed}})
        c11o == Tag("C11.owner", s.atime \/ \A i \in 1..Len(e.w) : e.w[i].r = "clu" =>
-                       (IsFreeC(s.D.F, e.w[i].c) \/ e.w[i].c \in okClusters \/ ~InRangeC(s.D.F, e.w[i].c)))
+                       (IsFreeC(s.D.F, e.w[i].c) \/ (e.w[i].c \in okClusters /\ e.w[i].c \notin foreignPre) \/ ~InRangeC(s.D.F, e.w[i].c)))
                \cup Tag("C11.dir_slots", e.op = "mount" \/ Len(s.raw.dirs) = 0 \/ s.atime \/ \A i \in 1..Len(e.w) : segSlotsOk(e.w[i]))
-       v == os.v \cup st3.v \cup tv \cup c10 \cup c11 \cup c11o \cup c12 \cup c13 \cup c05 \cup c08
+       v == os.v \cup st3.v \cup tv \cup c10 \cup c11 \cup c11o \cup c12 \cup c13 \cup c05 \cup c05m \cup c08
    IN [s |-> [s EXCEPT !.m = m, !.raw = post, !.D = Dp, !.rv = rv, !.sv = sv, !.svok = svok, !.dead = (\E t \in v : \E pfx \in {"C00.", "C01.", "C02.", "C04.", "C15."} : SubSeqStr(t, pfx)),
                        !.pm = (\E t \in v : \E pfx \in {"C00.", "C01.", "C02.", "C04.", "C15."} : SubSeqStr(t, pfx)),
                        !.pm12 = (\E t \in v : \E pfx \in {"C00.", "C01.", "C02.", "C04.", "C15."} : SubSeqStr(t, pfx)),
-                       !.changed = changed, !.mountSt = mountSt, !.ro = ro, !.fiUsable = fiUsable, !.fiW = fiW, !.fiTrust = fiTrust,
+                       !.changed = changed, !.mountSt = mountSt, !.ro = ro, !.fiUsable = fiUsable, !.fiW = fiW, !.fiTrust = fiTrust, !.fiBase = (IF e.op = "mount" THEN fiTrust ELSE s.fiBase),
                        !.mountRaw = IF e.op = "mount" THEN s.raw ELSE s.mountRaw,
                        !.mountFree = IF e.op = "mount" THEN FreeCount(s.D.F) ELSE s.mountFree, !.dur = dur, !.wl = wlNow,
                        !.clk = IF Has(e, "clk") THEN e.clk ELSE s.clk],
